@@ -32,6 +32,8 @@ func runC16(c *core.Ctx) {
 	c.Rule("EMPTY", "Trigger only when the set is non-empty")
 	c.Rule("ABS5", "per-key record count and group removal")
 	c.Rule("KEYRCV", "every record's key is reported to the trigger before triggering")
+	c.Rule("KEYREC", "every trigger records every key it is told about")
+	checkKeyRecorded(c)
 	checkEndOfStreamOrder(c)
 	checkKeyReceived(c, ids)
 	checkTriggerRetraction(c, ids)
